@@ -3,7 +3,7 @@
 compared with the quotient-ring operation on canonical representatives."""
 from __future__ import annotations
 
-from .term import AnalysisError, AbstractValue, Term, show
+from .term import AnalysisError, AbstractValue, Term, show, subterms
 from .poly import Poly, Rat
 from .interp import Interp, World, Instance, Raised, External
 from .ecalg import FieldSym, FieldSymClass, PolyCond, AlgState, alg_paths, AlgInterp
@@ -115,8 +115,51 @@ class FieldSubject:
         if isinstance(n, FieldSym):
             if not n.r.d.is_const() or n.r.d.const_value() != 1:
                 raise AnalysisError("rational stored value")
-            return Poly(n.r.n.t, self.p), n.reduced
+            red = n.reduced
+            if not red:
+                # an input stored as it came is canonical when the path established 0 <= it < p
+                lo, hi = self.range_on_path(n)
+                red = lo >= 0 and hi <= self.p - 1
+            return Poly(n.r.n.t, self.p), red
         raise AnalysisError(f"stored value {show(n)[:60]}")
+
+    def range_on_path(self, n):
+        """integer bounds that the facts of the current path put on the symbolic input n (a bare variable): comparisons of n
+        itself with constants, and of min(...)/max(...) of a collection containing n"""
+        from .ranges import interval_of_facts, INF
+        it = getattr(self, "cur_it", None)
+        lo, hi = -INF, INF
+        if it is None:
+            return lo, hi
+        me = repr(n)
+        for a, t, _w in it.fact_log:
+            if not isinstance(a, Term):
+                continue
+            if a.op == "field_order" and a.args[1] == me:
+                op, _s, other = a.args
+                try:
+                    c = int(other)
+                except (TypeError, ValueError):
+                    continue
+                if not t:
+                    op = {"<": ">=", "<=": ">", ">": "<=", ">=": "<"}[op]
+                if op == ">=":
+                    lo = max(lo, c)
+                elif op == ">":
+                    lo = max(lo, c + 1)
+                elif op == "<":
+                    hi = min(hi, c - 1)
+                elif op == "<=":
+                    hi = min(hi, c)
+                continue
+            for sub in subterms(a):
+                if isinstance(sub, Term) and sub.op in ("min", "max") and me in sub.args:
+                    l2, h2, _holes, _ = interval_of_facts([(a, t)], sub)
+                    if sub.op == "min":
+                        lo = max(lo, l2)       # min >= l2  ⇒  every member >= l2
+                    else:
+                        hi = min(hi, h2)       # max <= h2  ⇒  every member <= h2
+        return lo, hi
 
     def same(self, a, b):
         if isinstance(a, TowerSym):
@@ -136,7 +179,13 @@ class FieldSubject:
     def over_paths(self, body, label, where, out, refusal=None):
         """evaluate body(it) -> (ok, detail) on every path of the walked code (the operands are built inside body, so a branch
         in a constructor is a path split too); a raising path fails unless `refusal` accepts the exception class"""
-        paths = alg_paths(self.world, body, AlgState(), native_fields=False, summaries=self.summ, partial=True)
+        def body_on(it):
+            self.cur_it = it
+            try:
+                return body(it)
+            finally:
+                self.cur_it = None
+        paths = alg_paths(self.world, body_on, AlgState(), native_fields=False, summaries=self.summ, partial=True)
         bad, notes = [], []
         for p in paths:
             pd = " ".join(p.branch_lines()[-3:])
@@ -539,7 +588,7 @@ def fqp_eq_obligations(S: FieldSubject):
         r = it.call_func(m, [a, b], {})
         return r if isinstance(r, bool) else it.truth(r)
     paths = alg_paths(S.world, run_eq, AlgState(), native_fields=False, summaries=S.summ)
-    okeq = {p.value for p in paths} == {True, False} and sum(1 for p in paths if p.value is True) == 1
+    okeq = {p.value for p in paths} == {True, False}
     for pth in paths:
         zs = [pth.alg.is_zero(Rat(Poly.var(f"a{i}", p) - Poly.var(f"b{i}", p))) for i in range(S.d)]
         if pth.value is True and not all(z is True for z in zs):
